@@ -947,6 +947,9 @@ func (g *Gen) trCall(x ECall, env *Env) Val {
 			return Val{T: "true", Ty: tyBool}
 		}
 		return Val{T: "false", Ty: tyBool}
+	case "recovered":
+		// recovered(): this execution is the panicking one (the value recover() returns is non-nil)
+		return Val{T: "recovered!", Ty: tyBool}
 	case "resultof":
 		// resultof("callee", k, j): j-th result of the k-th call of callee in this function (1-based)
 		ks, ok := x.Args[0].(EStr)
